@@ -27,6 +27,10 @@ CLAIMED = {
         text="Lean theorem C12_preserves: for every instruction semantics satisfying the local laws, every well-delimited stream, every entry/label, all states and fuel, optimised = original; label-restart and line theorems; rule table proved equal to the one regenerated from peephole.rs; model tied to the real peephole_optimize on exhaustive windows, random streams and every fixture function; implementation output judged by an executable free-semantics Spec",
         note="Trusted: Lean kernel + the three standard axioms, translator rows for byte_code.rs/peephole.rs, hand-written optimiser model (checked against peephole_optimize through the cfg hook), free semantics as Spec; the local laws are proved for the free semantics, not for ops.rs",
         technique="Lean 4 semantic-preservation proof (generic over instruction semantics) + generated rule table + differential windows/streams"),
+    "C18": dict(
+        text="Lean theorems: encoder line table aligned with code bytes for every instruction list (generated per-helper emit tables), saved ip-1 lies inside the suspended instruction incl. its cache slot, the optimiser keeps slots behind their owners, the backtrace captured by an unwind lists exactly the frames between raise and catching frame innermost first, the outcome->status table is total; witnesses for the traceback-line defect; line tables of every dumped function recomputed by the model; generated call-chain programs with randomised line layout judged by an executable Lean Spec and the exact Lines model",
+        note="Trusted: Lean kernel + standard axioms, translator rows (encoder helpers, run status), hand-written unwinding model (tied by the call-chain stream), release harness build; which token's line the compiler attaches is sampled, not proved",
+        technique="Lean 4 proofs about the line-table encoder and the unwinding machine + generated tables + Spec/model/implementation stream"),
 }
 
 REASON_PENDING = "check under construction in this round; will be claimed when its theorem module and tie exist (see DESIGN.md §9)"
